@@ -52,6 +52,10 @@ structure Sess where
   removeOnDrop : Bool := false
   /-- how many times the backing memory was released (`Memory::unmount` executions) -/
   released : Nat := 0
+  /-- `Options::with_offset`: the arena is mapped at this offset of its file; `fs` holds the part of the file from the
+      offset on, `fpre` the bytes in front of it (never touched by the arena) -/
+  foff : Nat := 0
+  fpre : Mem := #[]
   deriving Inhabited
 
 def Sess.find (x : Sess) (h : Nat) : Option Handle := (x.handles.find? (·.1 == h)).map (·.2)
@@ -67,8 +71,23 @@ def Sess.init (o : Opts) : Option Sess :=
     { opts := o, cfg := o.cfg, st := st, handles := [], arenas := [0], refs := 1, dropCount := 0,
       fs := if o.file then some (st.image o.cfg) else none }
 
-/-- the file as the page cache holds it right now -/
+/-- the file as the page cache holds it right now (from the mapping offset on) -/
 def Sess.file (x : Sess) : FileSys := if x.closed then x.fs else fileView x.cfg x.st x.mapping x.fs
+
+/-- the whole file: the untouched bytes in front of the mapping offset, then `Sess.file` -/
+def Sess.whole (x : Sess) : FileSys := (x.file).map (x.fpre ++ ·)
+
+/-- splits a whole file at the mapping offset -/
+def Sess.setWhole (x : Sess) (w : FileSys) : Sess :=
+  match w with
+  | none => { x with fs := none, fpre := #[] }
+  | some f => { x with fpre := f.extract 0 (min x.foff f.size), fs := some (f.extract x.foff f.size) }
+
+/-- an open that produced / extended the arena part of a fresh file also zero-extends the part in front of it -/
+def Sess.padPre (x : Sess) : Sess :=
+  match x.fs with
+  | some f => if f.size > 0 ∧ x.fpre.size < x.foff then { x with fpre := x.fpre ++ Array.replicate (x.foff - x.fpre.size) 0 } else x
+  | none => x
 
 /-- the reference count drops by one; the holder that brings it to zero runs `unmount` -/
 def Sess.decRef (x : Sess) : Sess :=
